@@ -22,7 +22,7 @@ func init() {
 
 func c13Scenarios(cfg runCfg) []Scenario {
 	var out []Scenario
-	n := cfg.n(960, 25)
+	n := cfg.n(960, 50)
 	for i := 0; i < n; i++ {
 		if cfg.mine(i) {
 			fam := "prog"
